@@ -120,6 +120,10 @@ impl ParquetTable {
             max_i64: Option<i64>,
             null_count: Option<u64>,
             has_int_stats: bool,
+            /// Set once a chunk holds non-NULL values that no min/max bounds
+            /// (no statistics, or statistics without min/max): from then on
+            /// the column has no sound integer bounds.
+            unbounded: bool,
         }
 
         let mut total_rows: usize = 0;
@@ -152,11 +156,14 @@ impl ParquetTable {
                         max_i64: None,
                         null_count: Some(0),
                         has_int_stats: false,
+                        unbounded: false,
                     });
 
                     let Some(stats) = col_chunk.statistics() else {
-                        // A chunk without stats poisons null_count accuracy.
+                        // A chunk without stats poisons null_count accuracy
+                        // and leaves its values outside any min/max.
                         acc.null_count = None;
+                        acc.unbounded = true;
                         continue;
                     };
 
@@ -181,6 +188,10 @@ impl ParquetTable {
                         acc.has_int_stats = true;
                         acc.min_i64 = Some(acc.min_i64.map_or(min, |m| m.min(min)));
                         acc.max_i64 = Some(acc.max_i64.map_or(max, |m| m.max(max)));
+                    } else if stats.null_count_opt() != Some(col_chunk.num_values() as u64) {
+                        // No min/max although the chunk is not all-NULL: its
+                        // values are not covered by the bounds of other chunks.
+                        acc.unbounded = true;
                     }
                 }
             }
@@ -254,8 +265,14 @@ impl ParquetTable {
                     .null_count
                     .map(|n| (total_rows as u64).saturating_sub(n))
                     .unwrap_or(total_rows as u64);
+                // Bounds are reported only when every chunk contributed to them.
+                let (min_i64, max_i64) = if acc.unbounded {
+                    (None, None)
+                } else {
+                    (acc.min_i64, acc.max_i64)
+                };
                 let ndv_est = if acc.has_int_stats {
-                    match (acc.min_i64, acc.max_i64) {
+                    match (min_i64, max_i64) {
                         (Some(min), Some(max)) if max >= min => {
                             Some(non_null.min((max - min) as u64 + 1))
                         }
@@ -267,8 +284,8 @@ impl ParquetTable {
                 (
                     name,
                     crate::physical::operators::ColumnStatistics {
-                        min_i64: acc.min_i64,
-                        max_i64: acc.max_i64,
+                        min_i64,
+                        max_i64,
                         null_count: acc.null_count,
                         ndv_est,
                         ..Default::default()
